@@ -280,6 +280,11 @@ void phist_exec(const phist *h, int i, vh_obj *ob, ctrans *t, const char *prefix
     }
     if (vh_post_call_hook) vh_post_call_hook(ob, i);
     t->r[i].ret = ret;
+    if (vh_def_available()) {
+        if (o->kind != P_CLEANUP && o->kind != P_SWAP) vh_check_defined("return-value", &ret, sizeof(ret));
+        if (t->r[i].olen) vh_check_defined("output", t->out + t->r[i].ooff, t->r[i].olen);
+        if (obj && ob->live) vh_check_defined("handle", &ob->H, sizeof(ob->H));
+    }
     if (ua && vh_gcheck(ua == 2 ? 1 : 0, &where) && !t->canary_damage) { t->canary_damage = i + 1; t->canary_where = where; }
     if (ub && vh_gcheck(2, &where) && !t->canary_damage) { t->canary_damage = i + 1; t->canary_where = where; }
     if (ut && vh_gcheck(3, &where) && !t->canary_damage) { t->canary_damage = i + 1; t->canary_where = where; }
